@@ -505,7 +505,7 @@ void NifFile::SortShape(NiShape* shape, SortState& sortState) {
 }
 
 void NifFile::SortGraph(NiNode* root, SortState& sortState) {
-	bool isRootNode = GetBlockID(root) == 0;
+	bool isRootNode = root == GetRootNode();
 	SortAVObject(root, sortState);
 
 	std::vector<uint32_t> childIndices;
